@@ -40,14 +40,11 @@ pub struct Gen {
     pub rng: Rng,
     /// chains longer than concat.rs's limit are produced with this probability (per tree, in 1/100)
     pub long_pct: u64,
-    /// also put children that report sample-group pairs below `ForceFlag` / `WithDimensions` flattens
-    /// (off by default: metrique-core's forwarding impls for these two drop `sample_group`, see notes/C07.md DEFECT)
-    pub wrapper_sample_groups: bool,
 }
 
 impl Gen {
     pub fn new(rng: Rng) -> Gen {
-        Gen { rng, long_pct: 20, wrapper_sample_groups: false }
+        Gen { rng, long_pct: 20 }
     }
 
     /// an ASCII Rust identifier (also the alphabet of everything that gets inflected)
@@ -337,9 +334,6 @@ impl Gen {
         if wrap.by_value_only() && !by_value {
             wrap = *self.rng.pick(&[Wrap::Ref, Wrap::Box, Wrap::Arc, Wrap::Cow, Wrap::Mutex, Wrap::StdArc]);
         }
-        if wrap.drops_sample_group() && !self.wrapper_sample_groups && reports_sample_group(&child) {
-            wrap = *self.rng.pick(&[Wrap::Ref, Wrap::Box, Wrap::Arc, Wrap::Cow]);
-        }
         let mut child = child;
         if wrap.needs_clone() {
             // everything below a Cow is `#[derive(Clone)]`: no `Mutex` fields there
@@ -445,24 +439,6 @@ fn demutex(d: &mut Def) {
     match d {
         Def::Struct { fields: fs, .. } => fields(fs),
         Def::Enum { variants, .. } => variants.iter_mut().for_each(|v| fields(&mut v.fields)),
-    }
-}
-
-/// may any instance of the tree report a sample-group pair (own field, tag or `flatten_entry`)?
-pub fn reports_sample_group(d: &Def) -> bool {
-    fn fields(fs: &[Field]) -> bool {
-        fs.iter().any(|f| match f {
-            Field::Plain { sg, .. } => *sg,
-            Field::Flatten { child, .. } => reports_sample_group(child),
-            Field::FlattenEntry { sg, .. } => !sg.is_empty(),
-            _ => false,
-        })
-    }
-    match d {
-        Def::Struct { fields: fs, .. } => fields(fs),
-        Def::Enum { tag, variants, .. } => {
-            tag.as_ref().map(|t| t.sg).unwrap_or(false) || variants.iter().any(|v| fields(&v.fields))
-        }
     }
 }
 
